@@ -308,3 +308,132 @@ func AddUint64(p *uint64, d uint64) uint64 {
 	vrt.AbsorbInt(int64(*p))
 	return *p
 }
+
+// the remaining function forms of package sync/atomic
+
+func SwapInt32(p *int32, v int32) int32 {
+	point("swap")
+	sync(unsafe.Pointer(p))
+	o := *p
+	*p = v
+	vrt.AbsorbInt(int64(o))
+	return o
+}
+func SwapInt64(p *int64, v int64) int64 {
+	point("swap")
+	sync(unsafe.Pointer(p))
+	o := *p
+	*p = v
+	vrt.AbsorbInt(o)
+	return o
+}
+func SwapUint32(p *uint32, v uint32) uint32 {
+	point("swap")
+	sync(unsafe.Pointer(p))
+	o := *p
+	*p = v
+	vrt.AbsorbInt(int64(o))
+	return o
+}
+func SwapUint64(p *uint64, v uint64) uint64 {
+	point("swap")
+	sync(unsafe.Pointer(p))
+	o := *p
+	*p = v
+	vrt.AbsorbInt(int64(o))
+	return o
+}
+func LoadUintptr(p *uintptr) uintptr { point("load"); sync(unsafe.Pointer(p)); return *p }
+func StoreUintptr(p *uintptr, v uintptr) {
+	point("store")
+	sync(unsafe.Pointer(p))
+	*p = v
+}
+func AddUintptr(p *uintptr, d uintptr) uintptr {
+	point("add")
+	sync(unsafe.Pointer(p))
+	*p += d
+	return *p
+}
+func SwapUintptr(p *uintptr, v uintptr) uintptr {
+	point("swap")
+	sync(unsafe.Pointer(p))
+	o := *p
+	*p = v
+	return o
+}
+func CompareAndSwapUintptr(p *uintptr, o, n uintptr) bool {
+	point("cas")
+	sync(unsafe.Pointer(p))
+	if *p == o {
+		*p = n
+		vrt.AbsorbInt(1)
+		return true
+	}
+	vrt.AbsorbInt(0)
+	return false
+}
+
+// pointer forms: the value read is an address and is not absorbed into the state key (whether it is nil is)
+func LoadPointer(p *unsafe.Pointer) unsafe.Pointer {
+	point("load")
+	sync(unsafe.Pointer(p))
+	vrt.AbsorbInt(b2i(*p != nil))
+	return *p
+}
+func StorePointer(p *unsafe.Pointer, v unsafe.Pointer) {
+	point("store")
+	sync(unsafe.Pointer(p))
+	*p = v
+}
+func SwapPointer(p *unsafe.Pointer, v unsafe.Pointer) unsafe.Pointer {
+	point("swap")
+	sync(unsafe.Pointer(p))
+	o := *p
+	*p = v
+	vrt.AbsorbInt(b2i(o != nil))
+	return o
+}
+func CompareAndSwapPointer(p *unsafe.Pointer, o, n unsafe.Pointer) bool {
+	point("cas")
+	sync(unsafe.Pointer(p))
+	if *p == o {
+		*p = n
+		vrt.AbsorbInt(1)
+		return true
+	}
+	vrt.AbsorbInt(0)
+	return false
+}
+
+func (x *Value) Swap(v any) any {
+	point("swap")
+	sync(unsafe.Pointer(x))
+	o := x.v
+	x.v = v
+	return o
+}
+func (x *Value) CompareAndSwap(o, n any) bool {
+	point("cas")
+	sync(unsafe.Pointer(x))
+	if x.v == o {
+		x.v = n
+		vrt.AbsorbInt(1)
+		return true
+	}
+	vrt.AbsorbInt(0)
+	return false
+}
+
+// Uintptr as a type
+type Uintptr struct{ v uintptr }
+
+func (x *Uintptr) Load() uintptr   { return LoadUintptr(&x.v) }
+func (x *Uintptr) Store(v uintptr) { StoreUintptr(&x.v, v) }
+func (x *Uintptr) Add(d uintptr) uintptr {
+	return AddUintptr(&x.v, d)
+}
+func (x *Uintptr) Swap(v uintptr) uintptr { return SwapUintptr(&x.v, v) }
+func (x *Uintptr) CompareAndSwap(o, n uintptr) bool {
+	return CompareAndSwapUintptr(&x.v, o, n)
+}
